@@ -112,21 +112,41 @@ int main(int argc, char** argv) {
   static const uint64_t lens[][3] = {{1ull << 62, 1ull << 62, 0}, {1ull << 63, 1ull << 63, 0}, {~0ull - 9, 1, 0}, {~0ull - 12, 1, 0}, {~0ull - 13, 1, 0}, {1ull << 63, (1ull << 63) - 20, 0},
                                      {1ull << 40, 1ull << 41, 1ull << 42}, {~0ull, 0, 0}, {~0ull - 9, 0, 0}, {5, 6, 7}, {0, 0, 0}, {1ull << 63, (1ull << 63) - 13, 1}};
   for (unsigned i = 0; i < sizeof lens / sizeof *lens; i++) {
-    cbor_item_t* s = cbor_new_indefinite_bytestring();
-    cbor_item_t* ch[3];
-    fputs("{\"e\":\"sersize\",\"lens\":[", vh_out);
-    for (int k = 0; k < 3; k++) {
-      ch[k] = cbor_new_definite_bytestring();
-      cbor_bytestring_set_handle(ch[k], NULL, (size_t)lens[i][k]);
-      (void)cbor_bytestring_add_chunk(s, ch[k]);
-      if (k) fputc(',', vh_out);
-      vh_u64(lens[i][k]);
+    /* the same chunked string bare, and wrapped so that the overflow has to propagate through every container kind:
+     * wrap = bytes the wrappers add around it */
+    for (int wrapkind = 0; wrapkind < 7; wrapkind++) {
+      cbor_item_t* s = cbor_new_indefinite_bytestring();
+      cbor_item_t* ch[3];
+      fputs("{\"e\":\"sersize\",\"lens\":[", vh_out);
+      for (int k = 0; k < 3; k++) {
+        ch[k] = cbor_new_definite_bytestring();
+        cbor_bytestring_set_handle(ch[k], NULL, (size_t)lens[i][k]);
+        (void)cbor_bytestring_add_chunk(s, ch[k]);
+        if (k) fputc(',', vh_out);
+        vh_u64(lens[i][k]);
+      }
+      fputs("]", vh_out);
+      cbor_item_t* top = s;
+      cbor_item_t* one = cbor_build_uint8(1);
+      int wrap = 0;
+      switch (wrapkind) {
+        case 0: top = cbor_incref(s); break;
+        case 1: top = cbor_build_tag(1, s); wrap = 1; break;                                                   /* c1 <s> */
+        case 2: { cbor_item_t* t = cbor_build_tag(1000, s); top = cbor_build_tag(2, t); cbor_decref(&t); wrap = 4; break; } /* c2 d9 03e8 <s> */
+        case 3: top = cbor_new_definite_array(2); (void)cbor_array_push(top, one); (void)cbor_array_push(top, s); wrap = 2; break;       /* 82 01 <s> */
+        case 4: top = cbor_new_indefinite_array(); (void)cbor_array_push(top, s); wrap = 2; break;                                         /* 9f <s> ff */
+        case 5: top = cbor_new_definite_map(1); (void)cbor_map_add(top, (struct cbor_pair){.key = one, .value = s}); wrap = 2; break;      /* a1 01 <s> */
+        default: { cbor_item_t* t = cbor_build_tag(7, s); top = cbor_new_indefinite_map(); (void)cbor_map_add(top, (struct cbor_pair){.key = t, .value = one}); cbor_decref(&t); wrap = 4; break; } /* bf c7 <s> 01 ff */
+      }
+      vh_kint("wrap", wrap);
+      vh_kint("wrapkind", wrapkind);
+      b8("size", cbor_serialized_size(top));
+      fputs("}\n", vh_out);
+      for (int k = 0; k < 3; k++) { cbor_bytestring_set_handle(ch[k], NULL, 0); cbor_decref(&ch[k]); }
+      cbor_decref(&top);
+      cbor_decref(&one);
+      cbor_decref(&s);
     }
-    fputs("]", vh_out);
-    b8("size", cbor_serialized_size(s));
-    fputs("}\n", vh_out);
-    for (int k = 0; k < 3; k++) { cbor_bytestring_set_handle(ch[k], NULL, 0); cbor_decref(&ch[k]); }
-    cbor_decref(&s);
   }
   fflush(vh_out);
   return 0;
